@@ -62,9 +62,10 @@ int main(void) {
             if (ZSTD_isError(r)) printf("err %s\n", zv_errclass(r)); else { zv_puthex(out, r); putchar('\n'); }
             free(in); free(out); free(d);
         } else if (!strcmp(op, "decs")) {
-            /* decs <cap> <hex> <in-chunks csv> <out-chunks csv> [trace] : ZSTD_decompressStream under a segmentation (lists are cycled) */
+            /* decs <cap> <hex> <in-chunks csv> <out-chunks csv> [trace [fresh]] : ZSTD_decompressStream under a segmentation (lists are cycled) */
             size_t cap = (size_t)strtoull(strtok(NULL, " "), NULL, 10), n; unsigned char* in = zv_unhex(strtok(NULL, " "), &n);
-            char* ins = strtok(NULL, " "); char* outs = strtok(NULL, " "); char* tr = strtok(NULL, " ");
+            char* ins = strtok(NULL, " "); char* outs = strtok(NULL, " "); char* tr = strtok(NULL, " "); char* fr = tr ? strtok(NULL, " ") : NULL;
+            ZSTD_DCtx* const dsaved = dctx; if (fr && !strcmp(fr, "fresh")) dctx = ZSTD_createDCtx();   /* a context without buffers left over from earlier lines */
             size_t ic[64], oc[64]; int ni = 0, no = 0, ii = 0, oi = 0; char* sv; char* t;
             unsigned char* out = (unsigned char*)malloc(cap ? cap : 1); size_t consumed = 0, produced = 0, r = 1; int calls = 0, idle = 0;
             char zeros[2048]; size_t zl = 0; zeros[0] = 0;
@@ -87,6 +88,7 @@ int main(void) {
             if (tr) printf("\n");
             if (ZSTD_isError(r)) printf("err %s calls=%d consumed=%zu produced=%zu zeros=%s\n", zv_errclass(r), calls, consumed, produced, zl ? zeros : "-");
             else printf("ok %zu %016llx calls=%d consumed=%zu zeros=%s last=%s\n", produced, (unsigned long long)XXH64(out, produced, 0), calls, consumed, zl ? zeros : "-", r == 0 ? "0" : "+");
+            if (dctx != dsaved) { ZSTD_freeDCtx(dctx); dctx = dsaved; }
             free(in); free(out);
         } else if (!strcmp(op, "pledge")) {
             /* pledge <pledged|-1> <total> <chunks csv> <endmode: 0 end-with-last-chunk, 1 separate end call, 2 endStream legacy> [nbWorkers: several 512 KB jobs] */
